@@ -2,7 +2,7 @@
 """
 Runs every property check against a behaviour-preserving refactoring (a diff
 against /repo's HEAD) in a scratch worktree: all checks must stay at exit 0.
-usage: tools_refactor.py <diff> [--keep-as <name>]
+usage: tools_refactor.py <diff> [--keep-as <name>] [--kind "<text>"] [--what "<text>"]
 """
 import glob, json, os, shutil, subprocess, sys, tempfile
 VERIF = os.path.dirname(os.path.abspath(__file__))
@@ -14,6 +14,8 @@ def sh(cmd, cwd=None, env=None, timeout=600):
 def main():
     diff = os.path.abspath(sys.argv[1])
     keep = sys.argv[sys.argv.index("--keep-as") + 1] if "--keep-as" in sys.argv else None
+    kind = sys.argv[sys.argv.index("--kind") + 1] if "--kind" in sys.argv else "behaviour-preserving refactoring by an independent sub-agent"
+    what = sys.argv[sys.argv.index("--what") + 1] if "--what" in sys.argv else ""
     tmp = tempfile.mkdtemp(prefix="verif-refcheck-")
     wt = os.path.join(tmp, "wt")
     out = {"diff": diff}
@@ -36,7 +38,7 @@ def main():
             dest = os.path.join(VERIF, "seeded", "benign", keep)
             os.makedirs(dest, exist_ok=True)
             shutil.copy(diff, os.path.join(dest, "patch.diff"))
-            json.dump({"kind": "behaviour-preserving refactoring by an independent sub-agent", "suite_with_change": out["suite"], "checks_raising_an_alarm": alarms}, open(os.path.join(dest, "meta.json"), "w"), indent=1)
+            json.dump({"kind": kind, "what": what, "suite_with_change": out["suite"], "checks_raising_an_alarm": alarms}, open(os.path.join(dest, "meta.json"), "w"), indent=1)
         print(json.dumps(out, indent=1))
         return 0
     finally:
